@@ -47,7 +47,11 @@ RULE = ("(M) exhaustive TLC run of Legacy.tla over the plan families of the tier
         "tables of up to 15 rows (5 names x 3 label values), lemmas checked on each; 'long' collections (-simulate, 6 workers x 34 / 150 "
         "behaviours): two configurations of one benchmark with 6..70 lines each (quick: 14 shapes x 16 value kinds x 2 units, cases only; "
         "thorough: 30 shapes x 16 kinds x 3 units, lemmas checked), U-test (3 alphas) or t-test (2 alphas). Every case is replayed once on "
-        "benchstat.Collection. distinct_nontrivial = distinct judged cases in which an outlier is rejected, or an old/new row "
+        "benchstat.Collection, and then up to three more times with every model value v re-read as (v - shift)*scale*sign (all "
+        "values negative; the reflection, non-positive with the order reversed; one seeded mixed-sign reading): quartiles and fences "
+        "are equivariant under x -> a*x+b, so values, retained values in input order, min, max (exchanged for a < 0), mean and "
+        "min <= mean <= max are judged per cell in these passes (signatures signed-*); deltas, p-values and geomeans are not. "
+        "distinct_nontrivial = distinct judged cases in which an outlier is rejected, or an old/new row "
         "reaches the gate without a test error, or a sort changes the first-appearance order, or a zero mean is left out of a "
         "requested geomean.")
 
@@ -222,7 +226,8 @@ def run(ctx):
     }
     ctx.cov["exhaustive"] = True
     return ctx.finish(RULE, assumptions=[
-        "measured values are finite non-negative floats (small integers times a scale factor); configurations have distinct names",
+        "measured values are finite floats (small integers times a scale factor; negative and mixed-sign samples through the affine "
+        "passes, which judge the per-cell statistics only); configurations have distinct names",
         "Tables() is called once per collection (a second call appends the retained values again - outside the property)",
         "rows are grouped as documented: label groups by first appearance, benchmarks by first appearance inside a group",
         "with no test chosen (NoDeltaTest, documented p = -1) the delta is always shown and no note is printed",
